@@ -308,10 +308,15 @@ func (r *rewriter) recvWaitFor(exprs ...ast.Node) []ast.Stmt {
 				r.errorf(u.Pos(), "receive from a channel expression with possible side effects is not modelled")
 				continue
 			}
-			pre = append(pre, &ast.ExprStmt{X: r.call("RecvWait", r.newSite(u.Pos(), "recv", false), u.X)})
+			// the channel expression is evaluated exactly once, as Go does for the receive itself
+			tv := r.tmp("c")
+			pre = append(pre,
+				&ast.AssignStmt{Lhs: []ast.Expr{tv}, Tok: token.DEFINE, Rhs: []ast.Expr{u.X}},
+				&ast.ExprStmt{X: r.call("RecvWait", r.newSite(u.Pos(), "recv", false), tv)})
+			u.X = tv
 		}
 	}
-	if len(pre) > 1 {
+	if len(pre) > 2 {
 		r.errorf(pre[0].Pos(), "more than one receive in one statement is not modelled")
 	}
 	return pre
@@ -378,7 +383,16 @@ func (r *rewriter) rewriteStmt(st ast.Stmt) []ast.Stmt {
 			r.errorf(s.Pos(), "send on a channel expression with possible side effects is not modelled")
 		}
 		pre := r.recvWaitFor(s.Value)
-		wait := &ast.ExprStmt{X: r.call("SendWait", r.newSite(s.Pos(), "send", false), s.Chan)}
+		// Go evaluates channel and value once, before the communication: bind both, then wait, then send
+		tc := r.tmp("c")
+		pre = append(pre, &ast.AssignStmt{Lhs: []ast.Expr{tc}, Tok: token.DEFINE, Rhs: []ast.Expr{s.Chan}})
+		if tv, known := r.info.Types[s.Value]; !(known && (tv.Value != nil || tv.IsNil())) {
+			vv := r.tmp("v")
+			pre = append(pre, &ast.AssignStmt{Lhs: []ast.Expr{vv}, Tok: token.DEFINE, Rhs: []ast.Expr{s.Value}})
+			s.Value = vv
+		}
+		wait := &ast.ExprStmt{X: r.call("SendWait", r.newSite(s.Pos(), "send", false), tc)}
+		s.Chan = tc
 		return append(append(pre, wait), s)
 	case *ast.SelectStmt:
 		return []ast.Stmt{r.rewriteSelect(s)}
@@ -406,8 +420,11 @@ func (r *rewriter) rewriteStmt(st ast.Stmt) []ast.Stmt {
 					if !simpleExpr(call.Args[0]) {
 						r.errorf(s.Pos(), "close of a channel expression with possible side effects is not modelled")
 					}
-					pre := &ast.ExprStmt{X: r.call("PreClose", r.newSite(s.Pos(), "close", false), call.Args[0])}
-					return []ast.Stmt{pre, s}
+					tc := r.tmp("c")
+					bind := &ast.AssignStmt{Lhs: []ast.Expr{tc}, Tok: token.DEFINE, Rhs: []ast.Expr{call.Args[0]}}
+					pre := &ast.ExprStmt{X: r.call("PreClose", r.newSite(s.Pos(), "close", false), tc)}
+					call.Args[0] = tc
+					return []ast.Stmt{bind, pre, s}
 				}
 			}
 		}
